@@ -103,8 +103,13 @@ def d4(ck: Check) -> None:
         probs.append("successful flag not set once")
     else:
         v = st[0].value
-        okv = text(v) in ("not any((not c for c in control))", "all((c for c in control))", "all(control)",
-                          "not any((len(c) == 0 for c in control))", "all((len(c) > 0 for c in control))")
+        ctl = [p for p in iv.f.params() if p != "self"][0]
+        tr = iv.translator(iv.cfgn(st[0]))
+        want = tr.f(ast.parse(f"not any(not c for c in {ctl})", mode="eval").body)
+        try:
+            okv = text(v) == f"all({ctl})" or logic.equivalent(tr.f(v), want)
+        except logic.TooBig:
+            okv = False
         if not okv:
             probs.append(f"successful is `{text(v)}`, expected: no step has an empty list of driver sets")
     ck.ob("D4", iv, st[0] if st else iv.f.node, not probs, "; ".join(probs) if probs else "successful = every step has a driver set",
